@@ -41,14 +41,30 @@ def from_ratio(nd):
     return nd[0] / nd[1]
 
 
-def data_array_cells(da, odim="outcomes", cdim="cues"):
-    """DataArray -> {'outcomes': [...], 'cues': [...], 'values': [[ [n,d], ...], ...]}"""
+def data_array_cells(da, odim="outcomes", cdim="cues", select=None):
+    """DataArray -> {'outcomes': [...], 'cues': [...], 'values': [[ [n,d], ...], ...]}
+    select = {'outcomes': [...], 'cues': [...]} restricts the *values* to those labels
+    (all labels are still reported under all_outcomes / all_cues)."""
     import numpy as np
     outs = [str(x) if not isinstance(x, str) else x for x in da.coords[odim].values.tolist()]
     cues = [str(x) if not isinstance(x, str) else x for x in da.coords[cdim].values.tolist()]
     vals = np.asarray(da.values, dtype=float)
-    return {"outcomes": outs, "cues": cues, "dims": list(da.dims),
-            "values": [[ratio(v) for v in row] for row in vals.tolist()]}
+    res = {"dims": list(da.dims), "n_outcomes": len(outs), "n_cues": len(cues),
+           "dup_labels": len(set(outs)) != len(outs) or len(set(cues)) != len(cues)}
+    if select is not None:
+        oi = {o: i for i, o in enumerate(outs)}
+        ci = {c: i for i, c in enumerate(cues)}
+        so = [o for o in select["outcomes"]]
+        sc_ = [c for c in select["cues"]]
+        res["missing"] = [o for o in so if o not in oi] + [c for c in sc_ if c not in ci]
+        so = [o for o in so if o in oi]
+        sc_ = [c for c in sc_ if c in ci]
+        res.update({"outcomes": so, "cues": sc_,
+                    "values": [[ratio(vals[oi[o], ci[c]]) for c in sc_] for o in so],
+                    "label_set_hash": [sorted(outs)[:3], sorted(cues)[:3]]})
+        return res
+    res.update({"outcomes": outs, "cues": cues, "values": [[ratio(v) for v in row] for row in vals.tolist()]})
+    return res
 
 
 def weight_dict_cells(wd):
